@@ -64,6 +64,9 @@ type histCase struct {
 
 const histHost = "dns.example"
 
+// longID is a ClientID of the maximum label length.
+var longID = "c" + strings.Repeat("0", 62)
+
 func histAlphabet(quick bool) []hop {
 	ops := []hop{
 		{Kind: "udp", Msg: 7},
@@ -73,7 +76,7 @@ func histAlphabet(quick bool) []hop {
 		{Kind: "tcp", Msg: 8},
 		{Kind: "dnscrypt", Msg: 7},
 		{Kind: "tls", Msg: 8},
-		{Kind: "quic", ID: "carol", Msg: 8},
+		{Kind: "quic", ID: longID, Msg: 8},
 		{Kind: "tls", ID: "dave", Msg: 7, Old: true},
 	}
 	if !quick {
